@@ -155,3 +155,264 @@ def run_queries(ab, md, base, qs):
         path = None if ctx is not None else base / "page" / "sub"
         res.append(L.convert(md, base, ab, ctx, ref_text(r), path=path))
     return res
+
+
+# ----------------------------------------------------------------------------- corpus
+CORPUS_FILES = {
+    "src/a.f90": """module ma
+  !! Module ma doc.
+  implicit none
+  type :: shape
+    !! A shape.
+    integer :: n !! count
+  contains
+    procedure, nopass :: reset => reset_shape !! bound reset
+    final :: fin
+  end type
+  interface shape
+    module procedure make_shape
+  end interface
+  interface gen
+    module procedure reset
+  end interface
+  abstract interface
+    subroutine cb(x)
+      integer :: x
+    end subroutine
+  end interface
+  integer :: counter !! a var
+contains
+  subroutine reset(x)
+    !! module subroutine reset
+    integer :: x !! arg x
+  end subroutine
+  subroutine reset_shape()
+  end subroutine
+  subroutine fin(self)
+    type(shape) :: self
+  end subroutine
+  function make_shape() result(r)
+    type(shape) :: r
+  end function
+  function helper(y) result(r)
+    !! helper fn
+    integer :: y, r
+    r = y
+  end function
+end module
+""",
+    "src/b.f90": """module mb
+  !! mb doc
+  use ma
+contains
+  subroutine helper()
+    !! mb helper
+  end subroutine
+  function reset() result(r)
+    !! mb reset
+    integer :: r
+    r = 1
+  end function
+end module
+program main
+  !! prog
+  use mb
+end program
+subroutine reset()
+  !! top-level reset
+end subroutine
+""",
+}
+CORPUS_REFS = ["reset", "reset(proc)", "reset(subroutine)", "reset(function)", "reset(bound)", "shape:reset",
+               "shape:reset(bound)", "shape(type):n", "helper", "helper(function)", "ma:helper", "MA(Module):Helper(FUNCTION)",
+               "mb:helper", "x", "counter", "ma:counter(variable)", "ma:nosuch", "ma:helper(bound)", "ma(foo)",
+               "ma:helper(foo)", "shape:shape(constructor)", "gen", "gen(interface)", "gen:reset(modproc)", "gen:reset",
+               "b.f90", "b.f90(file)", "main(program)", "cb(interface)", "cb(absinterface)", "shape(interface)",
+               "shape(type)", "shape", "nosuch:thing", "fin", "shape:fin(final)"]
+REF_RE = re.compile(r"^(\w+(?:\.\w+)?)(?:\((\w+)\))?(?::(\w+)(?:\((\w+)\))?)?$")
+
+
+def parse_ref(text):
+    m = REF_RE.match(text)
+    return (m.group(1), m.group(2), m.group(3), m.group(4))
+
+
+# ----------------------------------------------------------------------------- end-to-end
+MARK_RE = re.compile(r"Rk(\d+): (.*?) :\1kR", re.S)
+
+
+def e2e_docs(rng, ab, keys, nper):
+    """markers: k -> (doc key, ref).  Text for each doc key: a first paragraph with the references, then
+    the same references in a code span and in a fenced block."""
+    names = sorted({e["name"] for e in ab.ents if e["name"] and re.fullmatch(r"\w+", e["name"])})
+    targets = [i for i, e in enumerate(ab.ents) if e["url"] and re.fullmatch(r"\w+(\.\w+)?", e["name"] or "")]
+    marks = {}
+
+    def some_ref():
+        r = rng.random()
+        i = rng.choice(targets)
+        e = ab.ents[i]
+        if r < 0.35:
+            return (spell(rng, e["name"]), None, None, None)
+        if r < 0.55:
+            ks = CLASS_COMP_KINDS.get(e["cls"], [])
+            return (e["name"], rng.choice(ks) if ks else None, None, None)
+        if r < 0.85 and e["parent"] is not None and re.fullmatch(r"\w+", e["name"]):
+            pe = ab.ents[e["parent"]]
+            if re.fullmatch(r"\w+(\.\w+)?", pe["name"] or ""):
+                cks = CLASS_ITEM_KINDS.get(e["cls"], [])
+                return (pe["name"], None, e["name"], rng.choice(cks + [None]) if cks else None)
+        return (rng.choice(names + ["nosuch"]), None, None, None)
+    for key in keys:
+        for _ in range(nper):
+            marks[len(marks)] = (key, some_ref())
+    return marks
+
+
+def doc_texts(marks, skip=()):
+    by = {}
+    for k, (key, r) in marks.items():
+        if k not in skip:
+            by.setdefault(key, []).append((k, r))
+    docs = {}
+    for key, l in by.items():
+        first = " ".join(f"Rk{k}: {ref_text(r)} :{k}kR" for k, r in l)
+        code = " ".join(f"`Ck{k}: {ref_text(r)} :{k}kC`" for k, r in l[:1])
+        docs[key] = first + "\n\nSecond paragraph with a code span " + code + " in it.\n"
+    return docs
+
+
+def locate(ab, marks, page_keys):
+    """marker -> context entity id (None for project file / pages / summary)"""
+    where = {}
+    for i, o in enumerate(ab.objs):
+        text = "\n".join(getattr(o, "doc_list", []) or [])
+        for m in re.finditer(r"Rk(\d+): ", text):
+            where.setdefault(int(m.group(1)), i)
+    return {k: where.get(k) for k in marks if marks[k][0] not in page_keys}
+
+
+def expected_of(res):
+    if res[0] == "link":
+        return ("link", res[2])
+    return (res[0],)
+
+
+def scan_output(doc):
+    """every marker occurrence on every written page: (page relpath, k, html between the markers)"""
+    out = []
+    for f in sorted(doc.rglob("*.html")):
+        text = f.read_text(errors="replace")
+        if "Rk" not in text:
+            continue
+        rel = str(f.relative_to(doc))
+        for m in MARK_RE.finditer(text):
+            out.append((rel, int(m.group(1)), m.group(2)))
+    return out
+
+
+def check_occurrence(doc, page, inner, exp):
+    """the rendered reference on one page against the expected target (relative to the output root)"""
+    m = re.fullmatch(r'\s*<a(?: href="([^"]*)")?>(.*?)</a>\s*', inner, flags=re.S)
+    if not m:
+        return f"not an <a> element: {inner[:80]!r}"
+    href = m.group(1)
+    if exp[0] == "plain":
+        return None if href is None else f"expected plain text, got href {href}"
+    if href is None:
+        return "expected a link, got plain text"
+    href = html.unescape(href)
+    path, _, frag = href.partition("#")
+    tgt = os.path.normpath(os.path.join(os.path.dirname(doc / page), path))
+    rel = os.path.relpath(tgt, doc)
+    want_path, _, want_frag = exp[1].partition("#")
+    if os.path.normpath(rel) != os.path.normpath(want_path) or frag != want_frag:
+        return f"href {href} leads to {rel}#{frag}, expected {exp[1]}"
+    if not os.path.isfile(tgt):
+        return f"href {href}: file {rel} does not exist"
+    if frag and not re.search(r"""id=["']%s["']""" % re.escape(frag), open(tgt, errors="replace").read()):
+        return f"href {href}: no element with id {frag} in {rel}"
+    return None
+
+
+def end_to_end(chk, rng, nproj):
+    stats = {"runs": 0, "markers": 0, "occurrences": 0, "pages_with_refs": 0, "code_spans": 0}
+    for k in range(nproj):
+        pj = G.gen(rng, {"p_private": 0.0})
+        w, p, ab, md, base = setup_project(G.fill(pj["files"], {}))
+        w.__exit__()
+        page_keys = ["@project", "@summary", "@page", "@subpage"]
+        marks = e2e_docs(rng, ab, [d for d in pj["docs"] if rng.random() < 0.6] + page_keys, 2)
+        skip = set()
+        for attempt in range(2):
+            docs = doc_texts(marks, skip)
+            files = G.fill(pj["files"], docs)
+            w, p, ab, md, base = setup_project(files)
+            try:
+                ctx_of = locate(ab, marks, page_keys)
+                exp = {}
+                for kk, (key, r) in marks.items():
+                    if kk in skip:
+                        continue
+                    if key not in page_keys and ctx_of.get(kk) is None:
+                        skip.add(kk)           # the doc comment did not attach to an entity
+                        continue
+                    res = L.convert(md, base, ab, ctx_of.get(kk), ref_text(r),
+                                    path=None if ctx_of.get(kk) is not None else base / "page")
+                    if res[0] in ("err", "other"):
+                        skip.add(kk)
+                    else:
+                        exp[kk] = expected_of(res)
+            finally:
+                w.__exit__()
+        docs = doc_texts(marks, skip)
+        files = dict(G.fill(pj["files"], docs))
+        files["pages/index.md"] = "title: Pages\n\n" + docs.get("@page", "none") + "\n"
+        files["pages/sub/index.md"] = "title: Sub\n\n" + docs.get("@subpage", "none") + "\n"
+        summary = docs.get("@summary", "none").split("\n")[0]
+        with F.Work(files) as w2:
+            data, log, err = F.full_run_inprocess(w2.root, {"page_dir": "./pages", "summary": summary},
+                                                  body=docs.get("@project", "Project.") + "\n")
+            stats["runs"] += 1
+            chk.count(("e2e", tuple(sorted(files))), sample={"e2e_files": sorted(files), "markers": len(exp)})
+            if err:
+                chk.violation("failing-input", {"what": "FORD failed on a project whose references all convert",
+                                                "error": err, "log": log[-1500:], "files": files}, True)
+                continue
+            doc = w2.root / "doc"
+            occ = scan_output(doc)
+            stats["markers"] += len(exp)
+            stats["occurrences"] += len(occ)
+            stats["pages_with_refs"] += len({pg for pg, _, _ in occ})
+            probs = []
+            seen = set()
+            for page, kk, inner in occ:
+                seen.add(kk)
+                if kk not in exp:
+                    continue
+                if marks[kk][0] == "@summary":
+                    key = "summary-links-relative-to-cwd"
+                    bad = check_occurrence(doc, page, inner, exp[kk])
+                    if bad:
+                        chk.disagreements += 1
+                        if not chk.known(key, True):
+                            probs.append(f"{page}: marker {kk} {ref_text(marks[kk][1])}: {bad}")
+                    continue
+                bad = check_occurrence(doc, page, inner, exp[kk])
+                if bad:
+                    probs.append(f"{page}: marker {kk} {ref_text(marks[kk][1])} ({marks[kk][0]}): {bad}")
+            missing = [kk for kk in exp if kk not in seen]
+            if len(missing) > len(exp) // 2:
+                probs.append(f"{len(missing)} of {len(exp)} references do not appear on any page")
+            # code spans stay verbatim
+            for f in doc.rglob("*.html"):
+                t = f.read_text(errors="replace")
+                for m in re.finditer(r"Ck(\d+): (.*?) :\1kC", t, flags=re.S):
+                    stats["code_spans"] += 1
+                    kk = int(m.group(1))
+                    if kk in marks and html.unescape(m.group(2)) != ref_text(marks[kk][1]):
+                        probs.append(f"{f.relative_to(doc)}: reference in a code span was changed: {m.group(2)[:60]!r}")
+            if probs:
+                chk.violation("failing-input", {"what": "references on the pages of a full FORD run",
+                                                "problems": probs[:10], "files": files}, True)
+    chk.extra["end_to_end"] = stats
